@@ -72,18 +72,34 @@ fn check_case(rep: &Report, case: &Case, labels: &[String], local: &mut Local, w
     // a source that delivers in packets (short reads before the end): both modes must still agree
     if case.input.nblocks() >= 2 && labels.len() <= 1 {
         let (ch, bps, rate, bs) = (case.input.ch as usize, case.input.bps as usize, case.input.rate as usize, case.input.bs as usize);
-        let run = |mt: bool| -> Result<Vec<u8>, String> {
+        let run = |mt: bool, empty_first: bool| -> Result<Vec<u8>, String> {
             let mut c = case.clone();
             c.cfg.workers = 2;
             let cfg = subject::verified(&c.cfg, mt, bs).map_err(|e| e.describe())?;
-            let src = subject::PacketSource { ch, bps, rate, samples: samples.clone(), pos: 0, reads: 0 };
+            let src = subject::PacketSource { ch, bps, rate, samples: samples.clone(), pos: 0, reads: 0, empty_first };
             match crate::panicx::catch(|| flacenc::encode_with_fixed_block_size(&cfg, src, bs)) {
                 Ok(Ok(s)) => subject::stream_bytes(&s).map_err(|e| e.describe()),
                 Ok(Err(e)) => Err(format!("{e:?}")),
                 Err(p) => Err(p.describe()),
             }
         };
-        match (run(false), run(true)) {
+        // ... also when every packet is preceded by an empty fill
+        let st = run(false, false);
+        match (st.clone(), run(true, true)) {
+            (Ok(a), Ok(b)) => {
+                if a != b {
+                    let at = a.iter().zip(b.iter()).position(|(x, y)| x != y);
+                    rep.violation_conclusive("mt_vs_st|empty_fills", &format!("for a source that issues an empty fill before each packet the multi-thread stream ({} bytes) differs from the single-thread stream ({} bytes) at byte {at:?}", b.len(), a.len()), case.json(), case.weight());
+                }
+                local.count("empty_fill_source_comparisons", 1);
+            }
+            (a, b) => {
+                if a.is_err() != b.is_err() {
+                    rep.violation_conclusive("mt_vs_st|empty_fills_result", &format!("source with empty fills: single-thread {:?}, multi-thread {:?}", a.err(), b.err()), case.json(), case.weight());
+                }
+            }
+        }
+        match (st, run(true, false)) {
             (Ok(a), Ok(b)) => {
                 if a != b {
                     let at = a.iter().zip(b.iter()).position(|(x, y)| x != y);
